@@ -129,6 +129,12 @@ def _work_rand(args):
                     v = float(calc(mbuf))
                     ev.append({'op': 'Eval', 'mobile': mob.tolist(), 'finite': bool(math.isfinite(v)),
                                'nonneg': bool(v >= 0), 'cand': decompose(v, nm, g * g), 'value': v})
+                    if hasattr(calc, 'chi2_molecules') and rng.random() < 0.5:
+                        # the documented entry point for "no restraints" on the same object: the measure with an
+                        # empty restraint list, whatever the calculator was built with
+                        vp = float(calc.chi2_molecules(mbuf))
+                        ev.append({'op': 'EvalPlain', 'mobile': mob.tolist(), 'finite': bool(math.isfinite(vp)),
+                                   'nonneg': bool(vp >= 0), 'cand': decompose(vp, nm, g * g), 'value': vp})
                 # generic floats: invariances (tie-free with probability one)
                 F = rng.normal(size=(nf, 3))
                 M = rng.normal(size=(nm, 3))
